@@ -33,8 +33,8 @@ def cross_part(ctx, proof_broken=None, driver=None):
     t0 = time.time()
     harness = parcheck.build_harness(std=True)
     quick = ctx.tier == "quick"
-    ncases = 24 if quick else 200
-    iters = 80 if quick else 300
+    ncases = 24 if quick else 80
+    iters = 80 if quick else 200
     cases = list(pe.corpus("C14x")) + pe.generate(ctx.seed, "cross-cycles", ncases, "quick" if quick else "thorough", prefix="x")
     spec = pe.specification(cases, driver)
     out_root = os.path.join(common.BUILD, "par-traces", f"C14x-{ctx.seed}")
